@@ -4,7 +4,7 @@
 (* invariants (VM against the reference semantics of Peg.tla), and the     *)
 (* REPLAY output that binds every explored behaviour to the real crate.    *)
 (***************************************************************************)
-EXTENDS ChumskyVM, Peg, Json
+EXTENDS ChumskyVM, Peg, Json, RecData
 
 CONSTANTS Fam,        \* name of the grammar family
           MaxSize,    \* grammars of at most this many nodes
@@ -92,7 +92,10 @@ MCSpec == MCInit /\ [][MCNext]_vars
 (* Property invariants *)
 
 X == [toks |-> Toks, offs |-> Case.offs]
-KfClean == \A s \in DOMAIN kf : kf[s] = "off"
+KfClean == \A s \in DOMAIN kf : IsOpen(s) \/ kf[s] = "off"
+OpenOn(s) == s \in DOMAIN kf /\ kf[s] = "on"
+(* the failure events that count under the readings chosen in this behaviour *)
+FlOf(d) == {e \in d.fl : e.rd = "any" \/ e.rd = (IF OpenOn("o:tm_end") THEN "end" ELSE "start")}
 DenTop == D(<<"theni", G, <<"end">>>>, X, 0, VU, <<>>)
 EnvBodies(env) == [i \in DOMAIN env |-> env[i].body]
 ErrsOf(s) == [i \in DOMAIN s |-> s[i].err]
@@ -139,14 +142,14 @@ FurthestFailure ==
     LET d == DenTop
         e == result.errs[Len(result.errs)]
     IN /\ 0 <= e.s /\ e.s <= e.e /\ e.e <= TotalLen
-       /\ d.fl # {} =>
-            LET P == MaxPos(d.fl)
-                customs == {ev.err.cust : ev \in {x \in AtMax(d.fl) : x.err.cust # ""}}
+       /\ FlOf(d) # {} =>
+            LET P == MaxPos(FlOf(d))
+                customs == {ev.err.cust : ev \in {x \in AtMax(FlOf(d)) : x.err.cust # ""}}
             IN /\ alt.some /\ alt.pos = P
                /\ Ety = "rich" =>
                     IF customs # {} THEN e.cust \in customs
                     ELSE /\ e.cust = ""
-                         /\ e.exp = UNION {ev.err.exp : ev \in AtMax(d.fl)}
+                         /\ e.exp = UNION {ev.err.exp : ev \in AtMax(FlOf(d))}
                /\ (Ety \in {"rich", "simple"} /\ e.cust = "") => e.found = OffTok(e.s)
 
 (* C20: no "can't fail" unwrap is ever hit, and the machine makes progress *)
@@ -158,11 +161,52 @@ StepBound == st.steps <= 400
 ErrJson(e) == [s |-> e.s, e |-> e.e, found |-> e.found, exp |-> e.exp, cust |-> e.cust, ctxs |-> e.ctxs]
 ReplayRec ==
   [cid |-> cid, g |-> G, inp |-> Toks, kind |-> Case.kind, ety |-> Ety, mode |-> TopMode,
-   kf |-> {s \in DOMAIN kf : kf[s] = "on"},
+   kf |-> {s \in DOMAIN kf : kf[s] = "on" /\ ~IsOpen(s)},
    res |-> [ok |-> result.ok, out |-> result.out, errs |-> [i \in DOMAIN result.errs |-> ErrJson(result.errs[i])],
             panic |-> result.panic, insp |-> result.insp],
    obs |-> obs]
 Replay == st.done => PrintT("REPLAY " \o ToJson(ReplayRec))
+
+---------------------------------------------------------------------------
+(* Trace validation (implementation -> specification).  The Rust harness   *)
+(* runs the real crate on cases of its own choosing and records, per case, *)
+(* the case, the full observation and a mask saying which fields the       *)
+(* property under check pins.  With `Cases <- TraceCases` the machine is   *)
+(* run on exactly those cases and every finished behaviour prints a        *)
+(* verdict: does the recorded observation equal this behaviour's, on the   *)
+(* pinned fields?  A case is accepted when some behaviour matches.         *)
+(* The recorded cases reach TLC as a literal constant: the driver transcribes the harness's    *)
+(* ndjson file into module RecData (operator RecData) next to a copy of the specification.    *)
+(* (Reading the file with ndJsonDeserialize works too, but TLC re-evaluates that operator on  *)
+(* every reference, i.e. re-reads the file in every state.)                                   *)
+Rec == RecData
+(* the case part of the records, materialised by the driver (offs included): a plain tuple, *)
+(* which TLC caches, unlike a function constructor over Rec whose body it re-evaluates      *)
+TraceCases == RecCases
+
+RErr(e) == MkErr(e.s, e.e, e.found, SeqToSet(e.exp), e.cust, e.ctxs)
+LastKey(e) == <<e.s, e.e, e.found, e.exp, e.cust>>
+MatchErrs(how, rok, real, model) ==
+  LET all == Len(real) = Len(model) /\ \A i \in DOMAIN real : RErr(real[i]) = model[i] IN
+  CASE how = "all" -> all
+    [] how = "ifok" -> rok => all
+    [] how = "last" -> ~rok => (Len(real) >= 1 /\ Len(model) >= 1
+                               /\ LastKey(RErr(real[Len(real)])) = LastKey(model[Len(model)]))
+    [] how = "none" -> TRUE
+MatchObs(how, real, model) ==
+  LET n == CASE how = "none" -> 0 [] how = "ext" -> 2 [] how = "insp" -> 3 [] how = "all" -> 4 IN
+  n = 0 \/ (Len(real) = Len(model) /\ \A i \in DOMAIN real : \A k \in 1..n : real[i][k] = model[i][k])
+Matches ==
+  LET r == Rec[cid] m == r.mask IN
+  /\ r.res.panic = result.panic
+  /\ r.res.ok = result.ok
+  /\ (m.out /\ result.ok /\ TopMode = "E") => r.res.out = result.out
+  /\ MatchErrs(m.errs, result.ok, r.res.errs, result.errs)
+  /\ MatchObs(m.obs, r.obs, obs)
+  /\ (m.insp /\ result.ok) => r.res.insp = result.insp
+Verdict ==
+  st.done => /\ PrintT(<<"VERDICT", cid, {s \in DOMAIN kf : kf[s] = "on" /\ ~IsOpen(s)}, Matches>>)
+             /\ (Matches \/ PrintT("MODEL " \o ToJson(ReplayRec)))
 
 (* compact error traces *)
 Brief == [g |-> G, inp |-> Toks, ety |-> Ety, mode |-> TopMode, kf |-> kf, cur |-> cur, alt |-> alt, sec |-> sec,
